@@ -111,6 +111,8 @@ func newVTree(name, cfgName string, rng *rand.Rand) *vtree {
 	alloc[common.HexToAddress("0x00000000000000000000000000000000000e3b7e")] = GenesisAccount{Balance: new(big.Int)}
 	alloc[common.HexToAddress("0x00000000000000000000000000000000000c0de1")] = GenesisAccount{Balance: big.NewInt(5),
 		Code: vStoreContract(), Storage: map[common.Hash]common.Hash{common.HexToHash("0x01"): common.HexToHash("0x02")}}
+	// an account on the HF4 de-allocation list (zeroed at the HF4 height)
+	alloc[common.HexToAddress("0x962cd22a8edf1e4f4e55b4b15ddbfb5d9d541971")] = GenesisAccount{Balance: big.NewInt(123456789)}
 	t.gspec = &Genesis{Config: cfg, GasLimit: 4712388, Difficulty: big.NewInt(131072), Alloc: alloc}
 	g := t.gspec.MustCommit(t.gendb)
 	t.genesis = &vblk{id: "g", b: g, valid: true, uncled: map[common.Hash]bool{},
